@@ -1,6 +1,6 @@
 //! syn AST → Lean IR.  See the top of `main.rs` for the supported subset.
 
-use crate::ir::{conj, render_do, Cond, DoMode, L, S};
+use crate::ir::{render_do, Cond, DoMode, L, S};
 use quote::ToTokens;
 use std::collections::{BTreeMap, BTreeSet};
 use syn::visit::{self, Visit};
@@ -156,7 +156,8 @@ const LEAN_RESERVED: &[&str] = &[
     "export", "extends", "finally", "for", "from", "fun", "have", "if", "import", "in", "inductive", "infix",
     "instance", "let", "macro", "match", "mut", "mutual", "namespace", "nomatch", "notation", "open", "partial",
     "private", "protected", "return", "section", "show", "structure", "syntax", "then", "theorem", "try",
-    "universe", "unless", "unsafe", "using", "variable", "where", "with", "ok", "Type", "Prop", "Sort",
+    "universe", "unless", "unsafe", "using", "variable", "where", "with", "ok", "Type", "Prop", "Sort", "default",
+    "some", "none", "pure", "true", "false",
 ];
 /// Lean spelling of a Rust local (`ok` is reserved for the `_inRange` accumulator).
 pub fn lean_ident(rust: &str) -> String {
@@ -787,8 +788,10 @@ impl<'a> Cx<'a> {
                 (true, true) => "Rs.divI",
                 (true, false) => "Rs.remI",
             };
-            let mut cs = vec![Cond::NonZero(r.clone())];
-            if k.signed {
+            // a literal divisor other than 0 / -1 needs no side condition
+            let lit_div = matches!(&r, L::Atom(a) if a.parse::<u128>().map_or(false, |v| v != 0));
+            let mut cs = if lit_div { vec![] } else { vec![Cond::NonZero(r.clone())] };
+            if k.signed && !lit_div {
                 // MIN / -1 and MIN % -1 overflow (panic) in Rust
                 cs.push(Cond::Raw(format!("(¬({} = {} ∧ {} = -1))", l.arg(), lo, r.arg())));
                 if is_div {
@@ -882,9 +885,17 @@ impl<'a> Cx<'a> {
                 ty = unify(&ty, &rt);
                 body = L::If(Box::new(gl), Box::new(body), Box::new(rest.clone()));
                 out.push((p, body));
-                // the remaining arms still apply when this pattern does not match at all
-                if let L::Match(_, more) = rest {
-                    out.extend(more);
+                // The remaining arms still apply when this pattern does not match at all; alternatives
+                // of the same shape as the guarded pattern can never be reached at this level (Lean
+                // rejects redundant alternatives), they live on inside `rest` only.
+                let shadow: Vec<String> = p.split(" | ").map(pat_shape).collect();
+                if let (L::Match(_, more), false) = (rest, shadow.iter().any(|x| x == "_")) {
+                    for (q, b) in more {
+                        let alts: Vec<&str> = q.split(" | ").filter(|a| !shadow.contains(&pat_shape(a))).collect();
+                        if !alts.is_empty() {
+                            out.push((alts.join(" | "), b));
+                        }
+                    }
                 }
                 break;
             }
@@ -1377,6 +1388,33 @@ impl<'a> Cx<'a> {
     }
 }
 
+/// A pattern with its binders blanked out (`Kind.B n` → `Kind.B _`).
+fn pat_shape(p: &str) -> String {
+    let blank = |w: &str| {
+        let binder = w.chars().next().map_or(false, |c| c.is_lowercase() || c == '_')
+            && !matches!(w, "some" | "none" | "true" | "false")
+            && !w.contains('.');
+        if binder { "_".to_string() } else { w.to_string() }
+    };
+    let mut out = String::new();
+    let mut word = String::new();
+    let mut in_str = false;
+    for c in p.chars() {
+        if c == '"' {
+            in_str = !in_str;
+        }
+        if !in_str && (c.is_alphanumeric() || c == '_' || c == '.') {
+            word.push(c);
+        } else {
+            out.push_str(&blank(&word));
+            word.clear();
+            out.push(c);
+        }
+    }
+    out.push_str(&blank(&word));
+    out
+}
+
 #[derive(Clone, Copy, PartialEq)]
 enum Tail {
     /// function level: the tail value is returned
@@ -1405,22 +1443,11 @@ fn params_text(ps: &[(String, String)]) -> String {
 /// `lo ≤ p ∧ p ≤ hi` for every integer(-carrying) parameter.
 fn arg_range(cx: &mut Cx, name: &str, ty: &Ty) -> Option<String> {
     match ty {
-        Ty::Int(Some(k)) => {
-            let (lo, hi) = k.range();
-            Some(format!("({} ≤ {} ∧ {} ≤ {})", lo, name, name, hi))
-        }
-        Ty::Opt(x) => match &**x {
-            Ty::Int(Some(k)) => {
-                let (lo, hi) = k.range();
-                Some(format!("(∀ v, {} = some v → {} ≤ v ∧ v ≤ {})", name, lo, hi))
-            }
-            _ => None,
-        },
         Ty::Named(s) if cx.reg.structs.contains_key(s) => {
             let t = cx.lean_ty(ty);
             Some(format!("({}.inRange {})", t, name))
         }
-        _ => None,
+        _ => arg_range_field(name, ty),
     }
 }
 
@@ -1459,7 +1486,7 @@ fn emit(
     let mut out = String::new();
     let mut defs = vec![];
     out.push_str(&format!("/-- {} -/\n", doc));
-    let mut trivial = true;
+    let trivial;
     match (&body.pure_, mut_self) {
         (Some(l), _) => {
             if l.count_unreachable(false) != l.count_unreachable(true) {
@@ -1706,9 +1733,4 @@ fn arg_range_field(name: &str, ty: &Ty) -> Option<String> {
         },
         _ => None,
     }
-}
-
-#[allow(dead_code)]
-pub fn conj_pub(v: &[String]) -> String {
-    conj(v)
 }
